@@ -53,7 +53,7 @@ from ._random_common import MASK, SAMPLERS, Trace
 
 ID = "C16"
 VARIANTS = ("asan", "rel")
-BUDGET = {"quick": dict(examples=40000, seconds=48),
+BUDGET = {"quick": dict(examples=40000, seconds=75),
           "thorough": dict(examples=200000, seconds=520)}
 RULE = ("Hypothesis-generated batches (seed, sampler, documented-domain parameter vector biased to boundaries, "
         "n, FP environment masked/trap, optional forced raw draws) executed against the real samplers. "
@@ -701,13 +701,15 @@ def _fit_continuous(m, x):
 
 def _edges(m):
     """bin edges for the executor: 255 inner quantiles i/256 and the tail quantiles 2^-k, k = 10..16; edges
+    (the deep tail cells down to 2^-22 are what resolves a truncated or folded far tail of a ziggurat sampler
+    in the large binned samples of the fixed cases: 1e8 draws put about 24 values beyond the 2^-22 quantile)
     closer than 1e-9 (relative to the support) to a finite support bound are dropped, there the density may
     have a pole and neighbouring doubles are wider apart than the cells"""
     if m.dist is None:
         return None
     with np.errstate(all="ignore"):
         qs = np.arange(1, 256) / 256.0
-        tails = np.array([2.0 ** -k for k in (10, 12, 14, 16)])
+        tails = np.array([2.0 ** -k for k in (10, 12, 14, 16, 18, 20, 22)])
         e = np.concatenate([m.dist.ppf(qs), m.dist.ppf(tails), m.dist.isf(tails)])
     e = np.unique(e[np.isfinite(e)])
     width = (m.hi - m.lo) if math.isfinite(m.hi - m.lo) else 0.0
@@ -1043,11 +1045,11 @@ CANON_VECS = {
 
 
 def fixed_cases(tier):
-    """(1) the samplers everything else is built on, with a large binned sample (3e7 quick / 1e8 thorough);
+    """(1) the samplers everything else is built on, with a large binned sample (1e8 quick / 3.4e8 thorough, with tail cells down to the 2^-22 quantiles);
     (2) one fit case per sampler at a canonical parameter vector, so that every sampler is fit-tested in
     every run whatever the generator happens to draw"""
     out = []
-    big = dict((("std_normal", 3e7), ("std_exponential", 3e7), ("random", 1e7), ("std_gamma", 5e6)))
+    big = dict((("std_normal", 1e8), ("std_exponential", 2.5e8), ("random", 1e7), ("std_gamma", 5e6)))
     scale = 1 if tier == "quick" else 3.4
     for i, name in enumerate(CHECKED):
         args, vecs = CANON_VECS[name] if name in CANON_VECS else (CANON[name], {})
